@@ -29,6 +29,7 @@ var authItems = []string{
 	"S10-no-enc-key", "S11-certs-swapped", "S12-one-cert", "S13-eku-clientauth-only", "S14-keyusage-sign-cert", "S14-keyusage-enc-cert", "V1-client-callback-rejects", "S15-untrusted-ca-ships-its-root", "S15-extra-unrelated-selfsigned",
 	"C0-honest-client", "C1-no-cert", "C2-untrusted-ca", "C3-cv-other-key", "C4-cv-other-transcript", "C5-cv-omitted", "C6-selfsigned-allowed", "C7-selfsigned-cv-other-key", "C8-ifgiven-no-cert", "C9-expired", "C9-server-clock-after", "C10-eku-serverauth-only", "V2-server-callback-rejects", "C11-foreign-cert-first-own-cert-second", "C12-certificate-message-omitted",
 	"S16-dual-usage-sign-cert-enc-key-not-held", "S17-lookalike-of-trusted-root", "S18-leaves-issued-by-v1-end-entity", "C13-lookalike-of-trusted-root", "C14-leaf-issued-by-v1-end-entity", "TS7-leaf-issued-by-v1-end-entity", "TC14-leaf-issued-by-v1-end-entity",
+	"S21-session-of-another-name-resumed", "S20-only-unknown-extended-key-usage", "C15-only-unknown-extended-key-usage",
 	"S19-wildcard-one-label(allowed)", "S19-wildcard-deeper-name", "S19-wildcard-parent-name", "TS19-wildcard-one-label(allowed)", "TS19-wildcard-deeper-name", "TS19-wildcard-parent-name",
 	"TS0-honest-server", "TS1-untrusted-root", "TS3-wrong-name", "TS10-rsa-key-not-held", "TS5-ecdhe-params-signed-by-other-key", "TS6-ecdhe-params-signature-over-other-randoms", "TS9-ecdhe-params-signature-garbage", "TS4-ecdsa-cert-for-rsa-suite",
 	"TC0-honest-client", "TC1-no-cert", "TC2-untrusted-ca", "TC3-cv-other-key", "TC4-cv-other-transcript", "TC5-cv-omitted", "TC5-cv-omitted-enc-only-cert", "TC3-cv-other-key-enc-only-cert", "TC12-certificate-message-omitted", "TC8-ifgiven-no-cert",
@@ -67,6 +68,7 @@ type impRun struct {
 	CallbackRejects bool      // the victim's VerifyPeerCertificate callback returns an error
 	TLS             bool      // plain TLS 1.2 victim and impostor (RSA / ECDHE_RSA suites)
 	VictimRoots     string    // TLS victim client: trusted root (default rsaCA)
+	OtherNameFirst  bool      // session 1: the victim client asks the impostor for server2.sim (legitimately) and caches the session
 }
 
 const day = int64(24 * 3600 * 1e9)
@@ -85,7 +87,7 @@ func drawImpostor(c *simkit.Choice, ent *simkit.Stream) impRun {
 		sc := &reftls.ServerCfg{Rand: ent, Suites: []uint16{ir.Suite}, Sign: ident("srv-sign", true), Enc: ident("srv-enc", true)}
 		ir.scfg = sc
 		items := []string{"S0-honest-server", "S1-untrusted-ca", "S2-expired", "S2-not-yet-valid", "S2-client-clock-before", "S2-client-clock-after", "S2-one-expired", "S3-wrong-name", "S3-one-wrong-name", "S3-ip-literal-server-name",
-			"S4-rsa-sign-cert", "S4-p256-sign-cert", "S4-rsa-enc-cert", "S5-skx-other-key", "S6-skx-replayed-randoms", "S7-skx-other-enc-cert", "S8-skx-omitted", "S9-skx-malformed", "S10-no-enc-key", "S11-certs-swapped", "S12-one-cert", "S13-eku-clientauth-only", "S14-keyusage-sign-cert", "S14-keyusage-enc-cert", "V1-client-callback-rejects", "S15-untrusted-ca-ships-its-root", "S15-extra-unrelated-selfsigned", "S16-dual-usage-sign-cert-enc-key-not-held", "S17-lookalike-of-trusted-root", "S18-leaves-issued-by-v1-end-entity", "S19-wildcard-one-label(allowed)", "S19-wildcard-deeper-name", "S19-wildcard-parent-name"}
+			"S4-rsa-sign-cert", "S4-p256-sign-cert", "S4-rsa-enc-cert", "S5-skx-other-key", "S6-skx-replayed-randoms", "S7-skx-other-enc-cert", "S8-skx-omitted", "S9-skx-malformed", "S10-no-enc-key", "S11-certs-swapped", "S12-one-cert", "S13-eku-clientauth-only", "S14-keyusage-sign-cert", "S14-keyusage-enc-cert", "V1-client-callback-rejects", "S15-untrusted-ca-ships-its-root", "S15-extra-unrelated-selfsigned", "S16-dual-usage-sign-cert-enc-key-not-held", "S17-lookalike-of-trusted-root", "S18-leaves-issued-by-v1-end-entity", "S19-wildcard-one-label(allowed)", "S19-wildcard-deeper-name", "S19-wildcard-parent-name", "S21-session-of-another-name-resumed", "S20-only-unknown-extended-key-usage"}
 		ir.Item = items[c.Choose(len(items), simkit.LFault)]
 		switch ir.Item {
 		case "S0-honest-server":
@@ -185,6 +187,17 @@ func drawImpostor(c *simkit.Choice, ent *simkit.Stream) impRun {
 			default:
 				ir.VictimName = []string{"wild.sim", "xwild.sim", "host.wild.sim.evil"}[c.Choose(3, simkit.LFault)]
 			}
+		case "S21-session-of-another-name-resumed":
+			// The impostor is the legitimate holder of the certificates for server2.sim. The
+			// victim first talks to it under that name and is given a ticket; then it asks
+			// the same address for server.sim and the impostor answers by resuming.
+			sc.Sign, sc.Enc = ident("srv2-sign", true), ident("srv2-enc", true)
+			ir.NeedS1 = true
+			ir.OtherNameFirst = true
+		case "S20-only-unknown-extended-key-usage":
+			// certificates whose extended key usage lists only a purpose nobody knows (a
+			// private "document signing" OID): not good for server authentication
+			sc.Sign, sc.Enc = ident("srvekuunk-sign", true), ident("srvekuunk-enc", true)
 		case "S17-lookalike-of-trusted-root":
 			// self-issued certificates that copy the trusted root's subject name and
 			// subject key identifier (both public), with the impostor's own keys
@@ -211,7 +224,7 @@ func drawImpostor(c *simkit.Choice, ent *simkit.Stream) impRun {
 	cc := &reftls.ClientCfg{Rand: ent, Suites: []uint16{ir.Suite}, ServerName: "server.sim"}
 	ir.ccfg = cc
 	ir.Policy = gmtls.RequireAndVerifyClientCert
-	items := []string{"C0-honest-client", "C1-no-cert", "C2-untrusted-ca", "C3-cv-other-key", "C4-cv-other-transcript", "C5-cv-omitted", "C6-selfsigned-allowed", "C7-selfsigned-cv-other-key", "C8-ifgiven-no-cert", "C9-expired", "C9-server-clock-after", "C10-eku-serverauth-only", "V2-server-callback-rejects", "C11-foreign-cert-first-own-cert-second", "C12-certificate-message-omitted", "C13-lookalike-of-trusted-root", "C14-leaf-issued-by-v1-end-entity"}
+	items := []string{"C0-honest-client", "C1-no-cert", "C2-untrusted-ca", "C3-cv-other-key", "C4-cv-other-transcript", "C5-cv-omitted", "C6-selfsigned-allowed", "C7-selfsigned-cv-other-key", "C8-ifgiven-no-cert", "C9-expired", "C9-server-clock-after", "C10-eku-serverauth-only", "V2-server-callback-rejects", "C11-foreign-cert-first-own-cert-second", "C12-certificate-message-omitted", "C13-lookalike-of-trusted-root", "C14-leaf-issued-by-v1-end-entity", "C15-only-unknown-extended-key-usage"}
 	ir.Item = items[c.Choose(len(items), simkit.LFault)]
 	verifying := []gmtls.ClientAuthType{gmtls.RequireAndVerifyClientCert, gmtls.VerifyClientCertIfGiven}
 	lax := []gmtls.ClientAuthType{gmtls.RequireAnyClientCert, gmtls.RequestClientCert}
@@ -265,6 +278,9 @@ func drawImpostor(c *simkit.Choice, ent *simkit.Stream) impRun {
 		// the client ignores the CertificateRequest altogether (consistent transcript)
 		cc.IgnoreCertRequest = true
 		ir.Policy = []gmtls.ClientAuthType{gmtls.RequireAndVerifyClientCert, gmtls.RequireAnyClientCert}[c.Choose(2, simkit.LFault)]
+	case "C15-only-unknown-extended-key-usage":
+		cc.Cert = ident("cliekuunk", true)
+		ir.Policy = verifying[c.Choose(2, simkit.LFault)]
 	case "C13-lookalike-of-trusted-root":
 		cc.Cert = ident("lookA-cli", true)
 		ir.Policy = verifying[c.Choose(2, simkit.LFault)]
@@ -417,6 +433,7 @@ func runAuthImpostor(c *simkit.Choice, r *simkit.Rec) {
 	r.SigStr(r.Config)
 	site := ir.Item
 
+	victimCache := gmtls.NewLRUClientSessionCache(4)
 	type sess struct {
 		victim     endRes
 		vApp       []byte
@@ -427,6 +444,7 @@ func runAuthImpostor(c *simkit.Choice, r *simkit.Rec) {
 	}
 	runSession := func(tag string, scfg *reftls.ServerCfg, ccfg *reftls.ClientCfg, skew int64, policy gmtls.ClientAuthType, out *sess, done *simkit.Flag) {
 		vRaw, pRaw := s.NewConnPair("victim"+tag, "impostor"+tag, n1, n2)
+		vRaw.PeerAddr = "192.0.2.66:443" // every session reaches the same address
 		s.Spawn("victim"+tag, 0, func() {
 			var conn *gmtls.Conn
 			reject := func(rawCerts [][]byte, chains [][]*x509.Certificate) error {
@@ -456,6 +474,12 @@ func runAuthImpostor(c *simkit.Choice, r *simkit.Rec) {
 				vc := victimClientCfg(s, ir.Suite, entV, skew)
 				if ir.VictimName != "" && tag == "2" {
 					vc.ServerName = ir.VictimName
+				}
+				if ir.OtherNameFirst {
+					vc.ClientSessionCache = victimCache
+					if tag == "1" {
+						vc.ServerName = "server2.sim"
+					}
 				}
 				if ir.CallbackRejects && tag == "2" {
 					vc.VerifyPeerCertificate = reject
@@ -499,7 +523,19 @@ func runAuthImpostor(c *simkit.Choice, r *simkit.Rec) {
 	}
 	var s1, s2 sess
 	d1, d2 := &simkit.Flag{Name: "s1"}, &simkit.Flag{Name: "s2"}
-	if ir.NeedS1 {
+	if ir.NeedS1 && ir.OtherNameFirst {
+		// session 1: the impostor, honest under its own name, hands out a ticket
+		first := *ir.scfg
+		first.IssueTicket = drawDataStream(entI, 96)
+		runSession("1", &first, nil, 0, 0, &s1, d1)
+		s.Spawn("driver", 2, func() {
+			s.WaitFlag(d1)
+			if s1.peerRes != nil {
+				ir.scfg.Resume = &reftls.ResumeState{Ticket: first.IssueTicket, Master: s1.peerRes.Master, Suite: s1.peerRes.Suite, Vers: s1.peerRes.SH.Vers}
+			}
+			runSession("2", ir.scfg, ir.ccfg, ir.Skew, ir.Policy, &s2, d2)
+		})
+	} else if ir.NeedS1 {
 		// session 1: honest, to harvest a signature / transcript for replay
 		hs := &reftls.ServerCfg{Rand: entI, Suites: []uint16{ir.Suite}, Sign: ident("srv-sign", true), Enc: ident("srv-enc", true)}
 		hc := &reftls.ClientCfg{Rand: entI, Suites: []uint16{ir.Suite}, ServerName: "server.sim", Cert: ident("cli", true)}
